@@ -249,6 +249,10 @@ PROP_MENU = [
     ("DUE;VALUE=DATE-TIME", "20240102"), ("DTSTART;VALUE=date", "20240102T103000Z"), ("X-WHEN;VALUE=DATE-TIME", "20240102T103000Z"),
     ("X-FOO;VALUE=DATE,TEXT", "20200101"), ('X-FOO;VALUE="DATE","DATE-TIME"', "20200101"), ("COMPLETED;VALUE=DATE", "20240102T103000Z"),
     ("RDATE;VALUE=DATE", "20240102T103000"), ("TRIGGER;VALUE=DURATION", "20200102T090000Z"),
+    # characters outside the BMP in parameter values (bare and quoted); date lists mixing value kinds
+    ("ATTENDEE;CN=Bob\U0001F600", "mailto:bob@example.com"), ('ORGANIZER;CN="\U00020000 x, y";X-E=\U0001F600\U0001F600', "mailto:o@example.com"),
+    ("EXDATE", "20240103,20240104T100000"), ("RDATE", "20240201T100000,20240202T100000Z"), ("EXDATE", "20240104T100000Z,20240103"),
+    ("RDATE;VALUE=PERIOD", "20240101T000000Z/PT1H,20240105T000000Z/20240105T010000Z"),
     ("DTEND", "20200102T110000Z"), ("DURATION", "PT1H"), ("DURATION", "-P1DT2H3M4S"), ("DUE", "20200105T000000Z"),
     ("RRULE", "FREQ=WEEKLY;BYDAY=MO,WE;COUNT=10"), ("RRULE", "FREQ=YEARLY;BYMONTH=3;BYDAY=-1SU;UNTIL=20300101T000000Z"),
     ("EXDATE", "20200109T100000,20200116T100000"), ("RDATE;VALUE=DATE", "20200301,20200401"),
